@@ -50,6 +50,36 @@ def edits_for(sub, p: dict) -> List[str]:
     return out
 
 
+_DICTIONARY: dict = {}
+
+
+def package_constants(sub) -> dict:
+    """string and integer constants of the hand-written modules of the package under test (a fuzzing dictionary): a value
+    that hand-written code compares with or maps from is the outside value most likely to be let through."""
+    key = sub.package
+    if key not in _DICTIONARY:
+        import ast
+        import importlib
+        import os
+        strs, ints = set(), set()
+        pkg_dir = os.path.dirname(importlib.import_module(sub.package).__file__)
+        for fn in sorted(os.listdir(pkg_dir)):
+            if not fn.endswith(".py") or fn == "types.py":
+                continue
+            try:
+                tree = ast.parse(open(os.path.join(pkg_dir, fn), encoding="utf-8").read())
+            except SyntaxError:
+                continue
+            for node in ast.walk(tree):
+                if isinstance(node, ast.Constant):
+                    if isinstance(node.value, str) and 0 < len(node.value) <= 40 and "\n" not in node.value:
+                        strs.add(node.value)
+                    elif isinstance(node.value, int) and not isinstance(node.value, bool):
+                        ints.add(node.value)
+        _DICTIONARY[key] = {"str": sorted(strs), "int": sorted(ints)}
+    return _DICTIONARY[key]
+
+
 def replacement(sub, p: dict, edit: str, sel: int) -> Any:
     t = p["type"]
     if edit == "int-out-of-range":
@@ -66,6 +96,7 @@ def replacement(sub, p: dict, edit: str, sel: int) -> Any:
             pool = [max(vals) + 1, 0, max(vals) + 1000, UINT_MAX, min(vals) - 1 if min(vals) > 0 else max(vals) + 2]
             pool = [x for x in dict.fromkeys(pool) if x not in vals and x >= 0]
             pool += [float(max(vals) + 1), float(max(vals) + 7), max(vals) + 0.5]   # JSON numbers written with a fraction / exponent
+            pool += [n for n in package_constants(sub)["int"] if n not in vals and n >= 0][:20]
         return pool[(sel // 7) % len(pool)]
     if edit == "literal-different":
         v = t["value"]
@@ -115,7 +146,10 @@ def apply_edit(j: Any, path: tuple, p: dict, edit: str, value: Any) -> Any:
     return j2
 
 
-def judge(sub, ctx: Ctx, root: tuple, tv: TV, site, sel: int, res: dict) -> None:
+_NO = object()
+
+
+def judge(sub, ctx: Ctx, root: tuple, tv: TV, site, sel: int, res: dict, value: Any = _NO) -> None:
     path, node, p, edit = site
     j = erase(tv)
     T = sub.root_type(root)
@@ -124,7 +158,7 @@ def judge(sub, ctx: Ctx, root: tuple, tv: TV, site, sel: int, res: dict) -> None
     except Exception:
         res["unedited_rejected"] += 1
         return  # C01's matter
-    val = None if edit == "delete-required" else replacement(sub, p, edit, sel)
+    val = value if value is not _NO else (None if edit == "delete-required" else replacement(sub, p, edit, sel))
     j2 = apply_edit(j, path, p, edit, val)
     res["evaluations"] += 1
     res["edits"][edit] += 1
@@ -147,7 +181,7 @@ def _work(args) -> dict:
     sub = valuecheck.subject()
     ctx = Ctx("C11", "quick", seed)
     res: Dict[str, Any] = {"evaluations": 0, "hashes": set(), "samples": [], "edits": collections.Counter(),
-                           "root": 0, "nested": 0, "unedited_rejected": 0, "root_pairs": 0}
+                           "root": 0, "nested": 0, "unedited_rejected": 0, "root_pairs": 0, "dictionary_probes": 0}
     for name in structs:
         root = ("struct", name)
         key = root
@@ -165,6 +199,26 @@ def _work(args) -> dict:
                     return one
 
                 mini(strat, k_root, (seed, "C11a", name, p["name"], edit), mk(p, edit))
+                # every constant of the package's hand-written modules that is not an allowed value, once
+                t_ = p["type"]
+                if edit == "enum-outside":
+                    e_ = sub.model.enums[t_["name"]]
+                    allowed = {v["value"] for v in e_["values"]}
+                    words = package_constants(sub)["str" if e_["type"]["name"] == "string" else "int"]
+                elif edit == "literal-different":
+                    allowed, words = {t_["value"]}, package_constants(sub)["str"]
+                else:
+                    allowed, words = set(), []
+                words = [w for w in words if w not in allowed]
+                if words:
+                    def mk2(p, edit, words):
+                        def one(x):
+                            (tv, _), sel = x
+                            for w in words:
+                                res["dictionary_probes"] += 1
+                                judge(sub, ctx, root, tv, ((), tv, p, edit), sel, res, value=w)
+                        return one
+                    mini(strat, 1, (seed, "C11dict", name, p["name"], edit), mk2(p, edit, words))
         # (b) random nested sites
         strat = st.tuples(tvgen.value_strategy(sub.objects, root), st.integers(0, 10**6), st.integers(0, 100))
 
@@ -189,7 +243,7 @@ def run(ctx: Ctx) -> None:
     k_root, n_nested = (10, 80) if ctx.quick else (60, 600)
     shards = runner.chunks(structs, runner.NPROC * 3)
     results = runner.pmap(_work, [(sh, ctx.seed, k_root, n_nested) for sh in shards])
-    tot: Dict[str, Any] = {"evaluations": 0, "root": 0, "nested": 0, "unedited_rejected": 0, "root_pairs": 0}
+    tot: Dict[str, Any] = {"evaluations": 0, "root": 0, "nested": 0, "unedited_rejected": 0, "root_pairs": 0, "dictionary_probes": 0}
     hashes = set()
     edits: collections.Counter = collections.Counter()
     samples = []
@@ -202,7 +256,7 @@ def run(ctx: Ctx) -> None:
         ctx.merge_worker(r)
     ctx.coverage.update({
         "evaluations": tot["evaluations"], "distinct_nontrivial": len(hashes), "rule": RULE, "samples": samples[:6],
-        "root_level_pairs_enumerated": tot["root_pairs"], "root_level_cases": tot["root"], "nested_cases": tot["nested"],
+        "dictionary_probes": tot["dictionary_probes"], "root_level_pairs_enumerated": tot["root_pairs"], "root_level_cases": tot["root"], "nested_cases": tot["nested"],
         "cases_by_edit": dict(edits), "unedited_value_rejected_skipped": tot["unedited_rejected"],
         "exhaustive": False,
     })
